@@ -176,6 +176,8 @@ Definition ipv4_validate (orc : oracle) (req : bool) (o : sopts) (x : pyval) : r
   | Some a => Ok (PStr (print_ipv4 a))
   | None => Err EValue
   end.
+(* IPv4NetworkField._validate (net_field.py:76-106): the StringField pipeline runs on the input text, the network
+   is parsed and bounded; the canonical text must then pass the same pipeline UNCHANGED (F49) and is the result *)
 Definition net_validate (orc : oracle) (req : bool) (o : sopts) (minp maxp : option Z) (x : pyval) : res pyval :=
   do s <- str_validate orc req o x ;;
   do ap <- parse_net s ;;
@@ -183,7 +185,9 @@ Definition net_validate (orc : oracle) (req : bool) (o : sopts) (minp maxp : opt
   | (a, p) =>
       if match minp with Some m => Z.of_N p <? m | None => false end then Err EValue
       else if match maxp with Some m => m <? Z.of_N p | None => false end then Err EValue
-      else Ok (PStr (print_net a p))
+      else let c := print_net a p in
+           do s' <- str_validate orc req o (PStr c) ;;
+           if str_eqb s' c then Ok (PStr c) else Err EValue
   end.
 Definition host_validate (orc : oracle) (req : bool) (o : sopts) (allow resolve : bool) (x : pyval) : res pyval :=
   do s <- str_validate orc req o x ;;
@@ -367,7 +371,7 @@ Definition sopts_F13 (o : sopts) : bool :=
   end.
 Definition known_F13 (f : field) : bool :=
   match f with
-  | FStr _ o | FIPv4 _ o | FNet _ o _ _ | FHost _ o _ _ => sopts_F13 o
+  | FStr _ o | FIPv4 _ o | FHost _ o _ _ => sopts_F13 o
   | _ => false
   end.
 
@@ -399,4 +403,16 @@ Definition run_fields (c : field * list (str * str * bool) * N * pyval) : pyval 
       else
         let rp := to_python_with orc f x in
         PTuple (o_resc rp :: o_then rp (fun p => [o_resc (validate_with orc f p)]))
+  end.
+
+(* cases the harness flags as possibly outside the model carry the implementation's observation: it is used
+   ONLY when the model really answers Unmodelled somewhere; otherwise the model's own observation is compared *)
+Definition run_fields_um (c : field * list (str * str * bool) * N * pyval * option pyval) : pyval :=
+  match c with
+  | (f, t, op, x, um) =>
+      let obs := run_fields (f, t, op, x) in
+      match um, obs with
+      | Some e, PTuple l => if existsb (pyval_eqb (o_str "unmodelled")) l then e else obs
+      | _, _ => obs
+      end
   end.
